@@ -145,6 +145,9 @@ props/C15.vos props/C15.vok props/C15.required_vos: props/C15.v model/ObjModel.v
 props/C17.vo props/C17.glob props/C17.v.beautified props/C17.required_vo: props/C17.v lib/Lib.vo lib/RLib.vo lib/Spec.vo gen/Compute.vo gen/Tables.vo proofs/Spec_lorentz.vo model/Layout.vo proofs/C17_reduce.vo
 props/C17.vio: props/C17.v lib/Lib.vio lib/RLib.vio lib/Spec.vio gen/Compute.vio gen/Tables.vio proofs/Spec_lorentz.vio model/Layout.vio proofs/C17_reduce.vio
 props/C17.vos props/C17.vok props/C17.required_vos: props/C17.v lib/Lib.vos lib/RLib.vos lib/Spec.vos gen/Compute.vos gen/Tables.vos proofs/Spec_lorentz.vos model/Layout.vos proofs/C17_reduce.vos
+props/C18.vo props/C18.glob props/C18.v.beautified props/C18.required_vo: props/C18.v model/Layout.vo
+props/C18.vio: props/C18.v model/Layout.vio
+props/C18.vos props/C18.vok props/C18.required_vos: props/C18.v model/Layout.vos
 props/C19.vo props/C19.glob props/C19.v.beautified props/C19.required_vo: props/C19.v model/Layout.vo
 props/C19.vio: props/C19.v model/Layout.vio
 props/C19.vos props/C19.vok props/C19.required_vos: props/C19.v model/Layout.vos
